@@ -25,7 +25,8 @@ From Coq Require Import ZArith List Bool Permutation.
 From V Require Import Model.ZMap Model.Quorum Model.Voting Model.VotingRef Model.HgImpl Model.HgBatch
   Proofs.VotingProofs Proofs.VotingTheorems Proofs.BatchRefute Proofs.AdmissionProofs Proofs.BlockInv
   Proofs.OrderProofs Proofs.Static Proofs.Agreement Proofs.AgreementU Proofs.AdmitOrder Proofs.BlockAgree
-  Model.Window Proofs.GapWindow Proofs.RoundAgreeD Proofs.RoundReceivedD Proofs.OrderIndepD.
+  Model.Window Proofs.GapWindow Proofs.RoundAgreeD Proofs.RoundReceivedD Proofs.OrderIndepD
+  Proofs.BlockAgreeD Proofs.BlockPeersD Proofs.OrderAgreeD.
 Import ListNotations.
 Open Scope Z_scope.
 
@@ -238,6 +239,43 @@ Proof.
            blocks_agree g all ID SK NA FF s1 s2 o1 o2 (map HInsert evs1) (map HInsert evs2) k d1 d2 H1 H2).
 Qed.
 Print Assumptions C03_blocks_order_consistent.
+
+(* THE SAME UNDER DYNAMIC MEMBERSHIP (no [no_accept], no premise on the tables): two runs over one fork-free universe
+   -- any insertion orders, any cuts, any selfs, the same genesis set -- that both respect the distance bound [gap_runb]
+   and have not failed give the same observation (round, Lamport timestamp) for every event both have admitted, and
+   their delivered blocks agree position by position in index, round-received, timestamp, transactions, internal
+   transactions and peers ([cbodyD], Proofs/BlockPeersD.v; C01_agreement_dynamic_gap restated for insertion
+   sequences).  Without the bound: C01_dynamic_fork_by_scheduling (the order of insertion alone forks). *)
+Theorem C03_order_independent_shared_dynamic :
+  forall all genesis self1 self2 oracle1 oracle2 ops1 ops2 x,
+  ids_determine all -> sigkeys_determine all -> fork_free all -> self1 <> -1 -> self2 <> -1 ->
+  Forall (hop_ok all) ops1 -> Forall (hop_ok all) ops2 ->
+  gap_runb (init_hg self1 genesis oracle1) ops1 = true -> gap_runb (init_hg self2 genesis oracle2) ops2 = true ->
+  let st1 := hrun (init_hg self1 genesis oracle1) ops1 in
+  let st2 := hrun (init_hg self2 genesis oracle2) ops2 in
+  failed st1 = false -> failed st2 = false ->
+  get_event st1 x <> None -> get_event st2 x <> None -> obs st1 x = obs st2 x.
+Proof.
+  exact (fun all g s1 s2 o1 o2 ops1 ops2 x ID SK FF S1 S2 H1 H2 B1 B2 F1 F2 =>
+           obs_agree_gap all g ID SK FF s1 s2 o1 o2 ops1 ops2 S1 S2 H1 H2 B1 B2 F1 F2 x).
+Qed.
+Print Assumptions C03_order_independent_shared_dynamic.
+
+Theorem C03_blocks_order_consistent_dynamic : forall all genesis evs1 evs2 self1 self2 oracle1 oracle2 k d1 d2,
+  ids_determine all -> sigkeys_determine all -> fork_free all -> self1 <> -1 -> self2 <> -1 ->
+  Forall (hop_ok all) (map HInsert evs1) -> Forall (hop_ok all) (map HInsert evs2) ->
+  gap_runb (init_hg self1 genesis oracle1) (map HInsert evs1) = true ->
+  gap_runb (init_hg self2 genesis oracle2) (map HInsert evs2) = true ->
+  failed (hrun (init_hg self1 genesis oracle1) (map HInsert evs1)) = false ->
+  failed (hrun (init_hg self2 genesis oracle2) (map HInsert evs2)) = false ->
+  nth_error (delivered (hrun (init_hg self1 genesis oracle1) (map HInsert evs1))) k = Some d1 ->
+  nth_error (delivered (hrun (init_hg self2 genesis oracle2) (map HInsert evs2))) k = Some d2 ->
+  cbodyD d1 = cbodyD d2.
+Proof.
+  exact (fun all g evs1 evs2 s1 s2 o1 o2 k d1 d2 ID SK FF S1 S2 H1 H2 B1 B2 F1 F2 =>
+           blocks_agree_gap_full all g ID SK FF s1 s2 o1 o2 (map HInsert evs1) (map HInsert evs2) S1 S2 H1 H2 B1 B2 F1 F2 k d1 d2).
+Qed.
+Print Assumptions C03_blocks_order_consistent_dynamic.
 
 (* THE PREFIX STATEMENT (literal, no premise): attempting more events only appends blocks *)
 Theorem C03_prefix : forall genesis evs more,
